@@ -14,12 +14,14 @@ def run(rep, tier):
         return
     rep.fn(hc.body["def"])
     rep.rule("R-TEVAL-VERBATIM", "in t_eval mode every reported time is a plain read of t_eval[i] (no arithmetic) and the state reported with it is the step interpolant evaluated at that same t_eval[i] (the step-end state only under the initial-callback test)")
+    rep.rule("R-TEVAL-WINDOW", "every interpolated sample is guarded by a comparison of the same t_eval[i] with the step start xold, in the form matching the direction (t >= xold - tol forward, t <= xold + tol backward)")
     rep.rule("R-NEXTIDX-MONO", "the t_eval cursor only advances by += 1 steps")
     rep.rule("R-TEVAL-BEFORE-INTERRUPT", "every path that returns Interrupt has passed a t_eval sampling region")
     rep.rule("R-TERM-POINT", "the last sample pushed before Interrupt is the terminal event's (time, state)")
     rep.rule("R-PUSH-PAIR", "every t.push is followed by its y.push on every path")
     rep.rule("R-OBS-FIELDS", "Options::t_eval / dense_output are read only in solve_ivp and reach only the output handler and the ContinuousOutput gating")
     H.r_teval_verbatim(rep, hc)
+    H.r_teval_window(rep, hc)
     H.r_nextidx_mono(rep, hc)
     H.r_teval_before_interrupt(rep, hc)
     H.r_term(rep, hc)
